@@ -35,6 +35,7 @@ import (
 
 	"seehuhn.de/go/sfnt"
 	"seehuhn.de/go/sfnt/cff"
+	"seehuhn.de/go/sfnt/glyf"
 	"seehuhn.de/go/sfnt/glyph"
 	"seehuhn.de/go/sfnt/header"
 	"seehuhn.de/go/sfnt/internal/debug"
@@ -122,6 +123,85 @@ func (f *faultReaderAt) ReadAt(p []byte, off int64) (int, error) {
 }
 func (f *faultReaderAt) Read(p []byte) (int, error) {
 	panic("Read called on a ReaderAt source")
+}
+
+// Reader kinds.  The library may type-assert its source for optional interfaces (the list of
+// assertions in header/, parser/ and read.go is regenerated as a fact); every kind below is
+// passed to header.Read / sfnt.Read with the same content semantics: the first k bytes of data
+// are readable, then the source is short (io.EOF, a container holding only k bytes) or failing
+// (a non-EOF error for every access touching an offset >= k).
+type baseAt struct {
+	data  []byte
+	k     int
+	fault bool
+}
+
+func (r *baseAt) ReadAt(p []byte, off int64) (int, error) {
+	if r.fault {
+		return (&faultReaderAt{r.data, r.k}).ReadAt(p, off)
+	}
+	return bytes.NewReader(r.data[:min(r.k, len(r.data))]).ReadAt(p, off)
+}
+func (r *baseAt) Read(p []byte) (int, error) { panic("Read called on a ReaderAt source") }
+
+// (b) ReaderAt + Size(): Size reports the declared (complete) length
+type sizeAt struct{ *baseAt }
+
+func (r sizeAt) Size() int64 { return int64(len(r.data)) }
+
+// (d) ReaderAt + io.ReadSeeker, no Size
+type seekAt struct {
+	*baseAt
+	pos int64
+}
+
+func (r *seekAt) Read(p []byte) (int, error) {
+	n, err := r.baseAt.ReadAt(p, r.pos)
+	r.pos += int64(n)
+	if n > 0 && err == io.EOF {
+		err = nil
+	}
+	return n, err
+}
+func (r *seekAt) Seek(off int64, whence int) (int64, error) {
+	switch whence {
+	case io.SeekCurrent:
+		off += r.pos
+	case io.SeekEnd:
+		off += int64(len(r.data))
+	}
+	if off < 0 {
+		return 0, errors.New("negative position")
+	}
+	r.pos = off
+	return off, nil
+}
+
+// (e) everything a file offers: ReadAt, Read, Seek, Size, Len, Close, Name, Stat-like, WriteTo absent
+type fileLike struct{ *seekAt }
+
+func (r fileLike) Size() int64    { return int64(len(r.data)) }
+func (r fileLike) Len() int       { return len(r.data) - int(r.pos) }
+func (r fileLike) Close() error   { return nil }
+func (r fileLike) Name() string   { return "font.ttf" }
+func (r fileLike) Sync() error    { return nil }
+func (r fileLike) Fd() uintptr    { return 3 }
+func (r fileLike) String() string { return "fileLike" }
+
+type readerAtReader interface {
+	io.Reader
+	io.ReaderAt
+}
+
+// kindsOf: (b) Size, (c) io.SectionReader with the declared length over the k-byte base, (d) Seek, (e) all
+func kindsOf(data []byte, k int, fault bool) []readerAtReader {
+	b := func() *baseAt { return &baseAt{data, k, fault} }
+	return []readerAtReader{
+		sizeAt{b()},
+		io.NewSectionReader(b(), 0, int64(len(data))),
+		&seekAt{baseAt: b()},
+		fileLike{&seekAt{baseAt: b()}},
+	}
 }
 
 // faultStream delivers data[:k] and then, if k < len(data), ends in the way `end` says:
@@ -212,6 +292,20 @@ func getFontLocked(spec string) *sfnt.Font {
 		if err != nil {
 			panic(err)
 		}
+	case strings.HasPrefix(spec, "big:"):
+		// big:<n>:<base>: the glyf font base with an fpgm table of n zero bytes (a table > 1 MiB)
+		parts := strings.SplitN(spec, ":", 3)
+		var n int
+		fmt.Sscan(parts[1], &n)
+		base := getFontLocked(parts[2])
+		f = base.Clone()
+		o := *base.Outlines.(*glyf.Outlines)
+		o.Tables = map[string][]byte{}
+		for k, v := range base.Outlines.(*glyf.Outlines).Tables {
+			o.Tables[k] = v
+		}
+		o.Tables["fpgm"] = make([]byte, n)
+		f.Outlines = &o
 	case strings.HasPrefix(spec, "sub:"):
 		parts := strings.SplitN(spec, ":", 4)
 		var n int
@@ -506,17 +600,26 @@ func init() {
 		copy(data, hdr)
 		data = data[:f.Int("len")]
 		ks := parseKs(f)
-		out := make([]byte, len(ks))
-		for i, k := range ks {
-			out[i] = guard1(func() byte {
-				var err error
-				if f["mode"] == "trunc" {
-					_, err = header.Read(bytes.NewReader(data[:min(k, len(data))]))
-				} else {
-					_, err = header.Read(&faultReaderAt{data, k})
-				}
-				return readClass(err)
-			})
+		// per k five reader kinds: bytes.Reader over data[:k] (mode trunc) or the plain failing
+		// ReaderAt (mode fault), then the kinds (b) (c) (d) (e)
+		var out []byte
+		for _, k := range ks {
+			var rs []io.ReaderAt
+			if f["mode"] == "trunc" {
+				rs = append(rs, bytes.NewReader(data[:min(k, len(data))]))
+			} else {
+				rs = append(rs, &faultReaderAt{data, k})
+			}
+			for _, r := range kindsOf(data, k, f["mode"] != "trunc") {
+				rs = append(rs, r)
+			}
+			for _, r := range rs {
+				r := r
+				out = append(out, guard1(func() byte {
+					_, err := header.Read(r)
+					return readClass(err)
+				}))
+			}
 		}
 		return string(out)
 	}
@@ -532,12 +635,15 @@ func init() {
 		var sb strings.Builder
 		for _, k := range parseKs(f) {
 			if k >= lastEnd {
-				sb.WriteString("---")
+				sb.WriteString("-------")
 				continue
 			}
 			sb.WriteByte(readVerdict(bytes.NewReader(data[:k])))
 			sb.WriteByte(readVerdict(&faultStream{data: data, k: k, end: "eof"}))
 			sb.WriteByte(readVerdict(&faultStream{data: data, k: k, end: "neof"}))
+			for _, r := range kindsOf(data, k, false) {
+				sb.WriteByte(readVerdict(r))
+			}
 		}
 		return sb.String()
 	}
@@ -556,7 +662,7 @@ func init() {
 		var sb strings.Builder
 		for _, k := range parseKs(f) {
 			if k >= len(data) {
-				sb.WriteString("-----")
+				sb.WriteString("---------")
 				continue
 			}
 			if k >= lastEnd {
@@ -566,6 +672,13 @@ func init() {
 			}
 			for _, end := range []string{"", "ueof", "nerr", "nueof"} {
 				sb.WriteByte(readVerdict(&faultStream{data: data, k: k, end: end}))
+			}
+			if k >= lastEnd {
+				sb.WriteString("----")
+			} else {
+				for _, r := range kindsOf(data, k, true) {
+					sb.WriteByte(readVerdict(r))
+				}
 			}
 		}
 		return sb.String()
@@ -922,6 +1035,105 @@ func countCases(c *Ctx, args string, total int, nontriv bool) {
 	}
 }
 
+// bigKs: fault points for a write whose Write calls are `calls` (start offset, length): around
+// every call boundary, and inside bodies larger than 1 MiB around every 1 MiB boundary and in the
+// middle of every 1 MiB piece.
+func bigKs(lens []int, total int) []int {
+	set := map[int]bool{}
+	add := func(k int) {
+		if k >= 0 && k <= total+1 {
+			set[k] = true
+		}
+	}
+	s := 0
+	for _, l := range lens {
+		for _, d := range []int{-1, 0, 1} {
+			add(s + d)
+		}
+		add(s + l/2)
+		for j := 1 << 20; j < l+(1<<20); j += 1 << 20 {
+			add(s + j - (1 << 19))
+			if j < l {
+				add(s + j - 1)
+				add(s + j)
+				add(s + j + 1)
+			}
+		}
+		s += l
+	}
+	add(total - 1)
+	add(total)
+	add(total + 1)
+	ks := make([]int, 0, len(set))
+	for k := range set {
+		ks = append(ks, k)
+	}
+	sort.Ints(ks)
+	return ks
+}
+
+// bigCountCases: the D predicate on writers handling tables larger than 1 MiB (args names the
+// writer: a table set by lengths for header.Write, or font=/api= for the sfnt writers).
+func bigCountCases(c *Ctx, args string, call func(w io.Writer) error) {
+	rec := &faultWriter{kind: "late", k: 1 << 60}
+	if err := call(rec); err != nil {
+		panic(err)
+	}
+	total := rec.acc
+	ks := bigKs(rec.lens, total)
+	c.Stat("big_write_total", bucket(total>>20)+" MiB")
+	for _, kind := range honestKinds {
+		for i := 0; i < len(ks); i += 32 {
+			part := ks[i:min(i+32, len(ks))]
+			out := c.Case(Direct, "faults.count", fmt.Sprintf("%s total=%d w=%s ks=%s", args, total, kind, ints(part)), true)
+			if strings.HasPrefix(out, "bad") || strings.HasPrefix(out, "panic") || out == "timeout" {
+				continue
+			}
+			for j := 0; j+3 <= len(out); j += 3 {
+				c.Stat("big_count_predicate_"+kind, out[j:j+3])
+			}
+			if j := strings.IndexAny(out, "#t"); j >= 0 {
+				c.Case(Direct, "faults.count", fmt.Sprintf("%s total=%d w=%s ks=%d", args, total, kind, part[j/3]), true)
+			}
+		}
+	}
+}
+
+// bigCases: table sets with bodies of 1 MiB + 5, 2 MiB and 3 MiB - 1 bytes through header.Write
+// (zero-filled: the line carries the lengths only), and a glyf font with an fpgm table > 1 MiB
+// through the sfnt writers.
+func bigCases(c *Ctx, variant int) {
+	r := c.Rng
+	sizes := [][]int{{1<<20 + 5, 2 << 20, 3<<20 - 1}, {3<<20 - 1, 1<<20 + 5}, {2 << 20, 54, 1<<20 + 1, 7}, {1 << 20, 1<<20 + 4}}[variant%4]
+	names := []string{"bigA", "bigB", "bigC", "bigD"}
+	if variant%2 == 1 {
+		names = []string{"head", "glyf", "CFF ", "zzzz"}
+	}
+	tabs := map[string][]byte{}
+	var parts []string
+	for i, n := range sizes {
+		tabs[names[i]] = make([]byte, n)
+		parts = append(parts, fmt.Sprintf("%s:%d", hx([]byte(names[i])), n))
+	}
+	sort.Strings(parts)
+	sc := header.ScalerTypeTrueType
+	bigCountCases(c, fmt.Sprintf("scaler=%d tabs=%s", sc, strings.Join(parts, ",")), func(w io.Writer) error {
+		_, err := header.Write(w, sc, tabs)
+		return err
+	})
+	if variant == 0 || c.Tier == "thorough" {
+		spec := fmt.Sprintf("big:%d:sub:%d:%d:go:goregular", Pick(r, []int{1<<20 + 5, 2 << 20, 3<<20 - 1}), r.Range(2, 5), r.Intn(1000000))
+		font := getFont(spec)
+		for _, api := range []string{"Write", "TTPDF"} {
+			api := api
+			bigCountCases(c, fmt.Sprintf("font=%s api=%s", spec, api), func(w io.Writer) error {
+				_, err, _ := writeAPI(font, api, w)
+				return err
+			})
+		}
+	}
+}
+
 // parserCases: histories on parser.Parser over sources ending at every k.
 func parserCases(c *Ctx, n int, hist int) {
 	r := c.Rng
@@ -981,10 +1193,10 @@ func parserCases(c *Ctx, n int, hist int) {
 		var chunks []int
 		switch r.Intn(3) {
 		case 1:
-			chunks = []int{Pick(r, []int{1, 7, 100, 1023})}
+			chunks = []int{Pick(r, []int{7, 100, 1023})} // one byte at a time is C17's business (costly in the model)
 		case 2:
 			for j := r.Range(2, 5); j > 0; j-- {
-				chunks = append(chunks, Pick(r, []int{1, 2, 3, 100, 1023, 1024, r.Range(1, 1200)}))
+				chunks = append(chunks, Pick(r, []int{2, 3, 100, 1023, 1024, r.Range(5, 1200)}))
 			}
 		}
 		for _, op := range opsl {
@@ -1138,13 +1350,13 @@ func fileCases(c *Ctx, fspec string, data []byte) {
 		countVerdicts(c, "sfnt.Read_truncated", out)
 		var a int
 		fmt.Sscan(ks, &a)
-		if i := strings.IndexAny(out, "AP"); i >= 0 && len(out) <= 3*faultBlock {
-			c.Case(Direct, "faults.trunc", fmt.Sprintf("font=%s lastend=%d len=%d ks=%d", fspec, lastEnd, total, a+i/3), true)
+		if i := strings.IndexAny(out, "AP"); i >= 0 && len(out) <= 7*faultBlock {
+			c.Case(Direct, "faults.trunc", fmt.Sprintf("font=%s lastend=%d len=%d ks=%d", fspec, lastEnd, total, a+i/7), true)
 		}
 		out = c.Case(Direct, "faults.reader", args, true)
 		countVerdicts(c, "sfnt.Read_failing_source", out)
-		if i := strings.IndexAny(out, "AP"); i >= 0 && len(out) <= 5*faultBlock {
-			c.Case(Direct, "faults.reader", fmt.Sprintf("font=%s lastend=%d len=%d ks=%d", fspec, lastEnd, total, a+i/5), true)
+		if i := strings.IndexAny(out, "AP"); i >= 0 && len(out) <= 9*faultBlock {
+			c.Case(Direct, "faults.reader", fmt.Sprintf("font=%s lastend=%d len=%d ks=%d", fspec, lastEnd, total, a+i/9), true)
 		}
 	}
 	c.Stat("fault_points", "file:"+bucket(total))
@@ -1349,7 +1561,9 @@ func areaFaults(c *Ctx) {
 		func() {
 			fontCases(c, fmt.Sprintf("sub:%d:%d:simple", r.Range(2, 6), seed()), []string{"Write", "CFFPDF"}, true)
 		},
-		func() { fontCases(c, fmt.Sprintf("sub:%d:%d:go:goregular", r.Range(5, 12), seed()), []string{"Write", "TTPDF"}, true) },
+		func() {
+			fontCases(c, fmt.Sprintf("sub:%d:%d:go:goregular", r.Range(5, 12), seed()), []string{"Write", "TTPDF"}, true)
+		},
 		func() { synthCases(c, 0) },
 		func() { synthCases(c, 1) },
 		func() { fontCases(c, "simple", []string{"Write", "CFFPDF"}, c.Tier == "thorough") },
@@ -1383,7 +1597,9 @@ func areaFaults(c *Ctx) {
 			})
 		}
 		// a complete large font through the writers: sampled k for the sfnt level, every k for header.Write
-		jobs = append(jobs, func() { fontCases(c, "go:"+Pick(r, []string{"gobold", "goitalic", "gomedium", "gomonobold"}), []string{"Write"}, false) })
+		jobs = append(jobs, func() {
+			fontCases(c, "go:"+Pick(r, []string{"gobold", "goitalic", "gomedium", "gomonobold"}), []string{"Write"}, false)
+		})
 	}
 	i := 3
 	for len(jobs) < c.N {
@@ -1405,6 +1621,13 @@ func areaFaults(c *Ctx) {
 	}
 	for _, j := range jobs[:min(len(jobs), max(c.N, 1))] {
 		j()
+	}
+	// tables larger than 1 MiB
+	bigCases(c, 0)
+	if c.Tier == "thorough" {
+		for v := 1; v < 4; v++ {
+			bigCases(c, v)
+		}
 	}
 	// the buffered parser on sources ending at every k
 	plens := []int{r.Range(2100, 2600), r.Range(3100, 4200)}
